@@ -68,6 +68,10 @@ func genValue(r vh.R) []byte {
 	case 6:
 		return nil
 	default:
+		if r.IntN(6) == 0 {
+			// long values: whatever their length, they are hashed — also when the length is 0..32 modulo 256 (or 2^16)
+			return r.Bytes([]int{255, 256, 257, 272, 287, 288, 289, 512, 544, 5120, 65536, 65536 + 16, 65536 + 32}[r.IntN(13)])
+		}
 		return r.Bytes(r.IntN(201))
 	}
 }
